@@ -26,13 +26,13 @@ CHECKS = {
     ),
     "C12": dict(
         technique="Hypothesis-generated operator/operand-kind/shape cases evaluated element by element with a reference evaluator; ill-formed uses must raise",
-        text="Every operator form of the four array classes (array-array, array-scalar, scalar-array incl. reflected forms, Python literals, unary, then/cond as methods and as free functions) on 1-D/2-D shapes incl. empty and 1xN is executed; each result element is evaluated under generated assignments and compared with the Python operator applied to the evaluated operands in written order; result class and shape are checked; ill-typed and ill-shaped uses must raise. Helpers take generated nested arguments (lists, tuples, generators, arrays, literals, empty); conv2d for all window sizes 1..dim+1; four_neighbors on every cell of shapes up to 4x4. Exploration (sampled).",
+        text="Every operator form of the four array classes (array-array, array-scalar, scalar-array incl. reflected forms, Python literals, unary, then/cond as methods and as free functions) on 1-D/2-D shapes incl. empty and 1xN is executed; each result element is evaluated under generated assignments and compared with the Python operator applied to the evaluated operands in written order; result class and shape are checked; ill-typed and ill-shaped uses must raise. Helpers take generated nested arguments (lists, tuples, generators, arrays, literals, empty); conv2d for all window sizes 1..dim+1; four_neighbors on every cell of shapes up to 4x4, including that a returned index list can be modified by the caller without affecting later calls. Exploration (sampled).",
         note="Trusted base: vlib/refsem evaluator. ==/!= between Bool and Int operands and wrong-sort Python literals in array operators are outside the rejection claim. 11/11 sensitivity mutants caught.",
         design_ref="3/C12",
     ),
     "C13": dict(
         technique="exhaustive small-scope enumeration + Hypothesis key pairs against Python list indexing (differential oracle)",
-        text="Every integer key, slice triple (bounds in [-size-3,size+3], steps +-1,2,3,5), key pair, coordinate list, flatten and reshape on all 1-D sizes 0..6 and 2-D shapes up to 4x4 (plus 2x5/5x2/1x6) is compared with Python's own list indexing; exhaustive inside that scope, sampled by Hypothesis beyond it. Exploration level: no absence proof beyond the scope, but the code has no size-dependent branch other than the per-axis normalisation the scope crosses.",
+        text="Every integer key, slice triple (bounds in [-size-3,size+3], steps +-1,2,3,5), key pair, coordinate list, flatten and reshape on all 1-D sizes 0..6 and 2-D shapes up to 4x4 (plus 2x5/5x2/1x6) is compared with Python's own list indexing; exhaustive inside that scope, sampled by Hypothesis beyond it. Arrays with more than 256 elements (17x17, 16x17, 300x1, 1x257, 20x20, 3x100) are flattened, reshaped to every factorisation and sliced as well. Exploration level: no absence proof beyond the scope.",
         note="Trusted base: CPython list/slice semantics as the oracle; variable ids as element identity. Step 0 is outside the domain; 'no row selected + out-of-range column integer' accepts either outcome. Mutants caught: see DESIGN.md section 7.",
         design_ref="3/C13",
     ),
@@ -47,13 +47,13 @@ CHECKS["C20"] = dict(
 
 CHECKS["C04"] = dict(
     technique="small-scope exhaustion: all 2^n activity patterns of all small graphs/grids decided on the posted encoding by an independent solver (projection) vs BFS, plus Hypothesis-generated end-to-end find_answer cases",
-    text="For every labelled simple graph on <=4 (thorough 5) vertices, drawn simple/multi graphs up to 7 (9) vertices and every grid shape with h*w <= 11 (16) through the BoolArray2D form, x acyclic x {rank encoding, native atom}, the public function is called once and ALL 2^n patterns are decided on the posted program (read through the public data model) by vlib/refz3 and compared with BFS connectivity / tree-ness: soundness, completeness and 'no other constraint on the caller's variables' at once. Native atoms are evaluated by the reference semantics. End-to-end cases feed the pattern as pinned/negated variables, expressions, constants, list/BoolArray1D/BoolArray2D through find_answer (z3, cspuz_core stand-in). Exhaustive within the scope, sampled beyond.",
+    text="For every labelled simple graph on <=4 (thorough 5) vertices, drawn simple/multi graphs up to 7 (9) vertices and every grid shape with h*w <= 11 (16) through the BoolArray2D form, x acyclic x {rank encoding, native atom}, the public function is called once and ALL 2^n patterns are decided on the posted program (read through the public data model) by vlib/refz3 and compared with BFS connectivity / tree-ness: soundness, completeness and 'no other constraint on the caller's variables' at once. Native atoms are evaluated by the reference semantics. Every small graph is entered in three edge orientations (ascending, descending, long edges reversed). End-to-end cases feed the pattern as pinned/negated variables, expressions, constants, list/BoolArray1D/BoolArray2D through find_answer (z3, cspuz_core stand-in). Exhaustive within the scope, sampled beyond.",
     note="Trusted base: vlib/graphref BFS, vlib/refz3 (self-checked against brute force), z3 as LIA decision procedure. Acyclic mode on simple graphs only. 9/9 sensitivity mutants caught (one design-list mutant, '>= 1 -> == 1' in the non-acyclic branch, turned out to be semantically equivalent and was replaced).",
     design_ref="3/C04",
 )
 CHECKS["C08"] = dict(
     technique="small-scope exhaustion of all activity patterns on all small graphs and grid shapes (projection through an independent solver) against the graph definition, three-way on grids",
-    text="ALL 2^n patterns of every labelled simple graph on <=4 (5) vertices, drawn multigraphs up to 7 (8), and every grid shape with h*w <= 12 (16) incl. all 1xN/Nx1, for not_adjacent and not_adjacent_and_not_segmenting, in the specialised grid form and the explicit-graph form, are decided on the posted program and compared with the definition (no edge with both ends active; inactive vertices connected). Exhaustive within the scope.",
+    text="ALL 2^n patterns of every labelled simple graph on <=4 (5) vertices, drawn multigraphs up to 7 (8), and every grid shape with h*w <= 12 (16) incl. all 1xN/Nx1, for not_adjacent and not_adjacent_and_not_segmenting, in the specialised grid form and the explicit-graph form, are decided on the posted program and compared with the definition (no edge with both ends active; inactive vertices connected). Beyond the exhaustive scope, boards 4x6..7x5 and 4x9 (thorough up to 8x8) are probed with constructed patterns (border-rooted diagonal zig-zag chains plus isolated cells) through one projection query per shape. Exhaustive within the scope, sampled beyond.",
     note="Trusted base: vlib/graphref, vlib/refz3. Empty inactive set counts as connected. 9/9 sensitivity mutants caught; found and fixed the 1xN defect.",
     design_ref="3/C08",
 )
@@ -73,7 +73,7 @@ CHECKS["C05"] = dict(
 
 CHECKS["C06"] = dict(
     technique="small-scope exhaustion of all edge subsets (fixed-pattern probing; AllSAT projection vs DFS cycle enumeration on larger frames) through an independent solver, with the returned array checked for being forced",
-    text="Cycle (rank + native) and path (native): every loop-free multigraph with n<=4, m<=5 (thorough m<=6, n<=5), drawn multigraphs n<=5, m<=8, every BoolGridFrame 0<=h,w<=3 (thorough + 3x4): all 2^m subsets by fixed-pattern probing when m<=12, otherwise the AllSAT projection of the posted program on the edge variables must equal {empty} + the DFS-enumerated simple cycles of the lattice (3x3: 214 models cover 2^24 subsets). For every admitted pattern 'pattern and returned array != visited vertices' must be UNSAT; frame results must have shape (h+1, w+1). End-to-end find_answer cases check the returned array's sol. Exhaustive within the scope.",
+    text="Cycle (rank + native) and path (native): every loop-free multigraph with n<=4, m<=5 (thorough m<=6, n<=5), drawn multigraphs n<=5, m<=8, every BoolGridFrame 0<=h,w<=3 (thorough + 3x4): all 2^m subsets by fixed-pattern probing when m<=12, otherwise the AllSAT projection of the posted program on the edge variables must equal {empty} + the DFS-enumerated simple cycles of the lattice (3x3: 214 models cover 2^24 subsets). For every admitted pattern 'pattern and returned array != visited vertices' must be UNSAT; frame results must have shape (h+1, w+1). A fifth of the graphs are Graph objects that the same constraint already used before more edges were added (stale-cache histories). End-to-end find_answer cases check the returned array's sol. Exhaustive within the scope.",
     note="Trusted base: vlib/graphref (degrees + union-find), vlib/lattice (geometry, DFS enumeration; the two reference formulations are cross-checked against each other at run time), vlib/refz3. The rank form of single_path raising RuntimeError('TODO') is documented. 11/11 sensitivity mutants caught; found and fixed 'single_path rejects the empty set'.",
     design_ref="3/C06",
 )
@@ -101,7 +101,7 @@ CHECKS["C14"] = dict(
 
 CHECKS["C15"] = dict(
     technique="Hypothesis joint generation of (combinator term, value in its domain) with a round-trip oracle up to canonical room order and an exact-consumption check with junk appended",
-    text="Terms are drawn over all thirteen combinators: item-level alternatives (HexInt / IntSpaces / MultiDigit, Spaces, Dict) combined in OneOf with pairwise disjoint first-character classes in any order, item streams built from chunks so that runs cross the one-character limit, values sit at 15/16/255/256/4095 and rows end in partial digit groups; composites Tupl, Seq (incl. length 0 and nested), Grid (explicit or environment size, 1xN, Nx1), Rooms and ValuedRooms over random connected partitions with rooms and cells in random order. deserialize_problem(serialize_problem(v)) must equal v up to the canonical ordering of rooms with values still attached to their rooms, and the low-level deserialize must consume exactly the produced characters, also with junk appended. Exploration (sampled).",
+    text="Terms are drawn over all thirteen combinators: item-level alternatives (HexInt / IntSpaces / MultiDigit, Spaces, Dict) combined in OneOf with pairwise disjoint first-character classes in any order, item streams built from chunks so that runs cross the one-character limit, values sit at 15/16/255/256/4095 and rows end in partial digit groups; composites Tupl, Seq (incl. length 0 and nested), Grid (explicit or environment size, 1xN, Nx1), Rooms and ValuedRooms over random connected partitions with rooms and cells in random order. deserialize_problem(serialize_problem(v)) must equal v up to the canonical ordering of rooms with values still attached to their rooms, and the low-level deserialize must consume exactly the produced characters, also with junk appended; a third of the size-dependent terms are used a second time, as the same object, for a board of another size. Exploration (sampled).",
     note="Trusted base: vlib/gen_comb (sound-by-construction value generation; its stated preconditions are listed in the evidence assumptions). 13/13 sensitivity mutants caught; four genuine defects found and fixed (Grid size 0, Grid item index, empty encodings at end of input, ValuedRooms ordering).",
     design_ref="3/C15",
 )
@@ -115,7 +115,7 @@ CHECKS["C16"] = dict(
 
 CHECKS["C17"] = dict(
     technique="mutational-structural Hypothesis fuzzing of the URL decoders with the semantic oracle inside the target; thorough tier adds an atheris (libFuzzer) coverage-guided campaign on the same entry function",
-    text="Inputs: valid URLs from the C16 generators (9 codecs) or synthetic URLs (codec-specific token bodies with dimensions 0..4, large boards with constant bodies, dimensions 0/1/huge/non-ASCII digits/empty, other hosts, missing segments) followed by 0..6 edits; arbitrary Unicode text; deserialize_problem_as_url with generated allowed_puzzles/allow_failure/return_size; get_puzzle_info_from_url; deserialize_problem(term, text, h, w) for generated combinator terms with mutated texts and odd sizes. Outcome must be None, ValueError or a problem of the dimensions stated in the URL that serializes and whose canonical text decodes to an equal problem; anything else is bucketed by (exception type, innermost cspuz frame) so that one root cause does not hide the next. Thorough: 16 atheris workers x 60 s (FuzzedDataProvider decoding into entry kind/codec/dimensions/body; empty and seeded corpora). Exploration.",
+    text="Inputs: valid URLs from the C16 generators (9 codecs) or synthetic URLs (codec-specific token bodies with dimensions 0..4, large boards with constant bodies, dimensions 0/1/huge/non-ASCII digits/empty, other hosts, missing segments) followed by 0..6 edits; arbitrary Unicode text; deserialize_problem_as_url with generated allowed_puzzles/allow_failure/return_size; get_puzzle_info_from_url; deserialize_problem(term, text, h, w) for generated combinator terms with mutated texts and odd sizes. Outcome must be None, ValueError or a problem of the dimensions stated in the URL that serializes and whose canonical text decodes to an equal problem; anything else is bucketed by (exception type, innermost cspuz frame) so that one root cause does not hide the next. Every body of <= 3 (4) characters over each codec's token characters on six tiny boards is enumerated exhaustively. Thorough: 16 atheris workers x 60 s (FuzzedDataProvider decoding into entry kind/codec/dimensions/body; empty and seeded corpora). One open known finding (Tupl.serialize ignoring surplus items of an element; see known_findings.json and DESIGN.md 7.8) is replayed on every run and printed as KNOWN-FINDING. Exploration.",
     note="Trusted base: the oracle in checks/c17.py; workers run under a 2 GiB address-space cap so that unbounded allocation on a short input surfaces as MemoryError. compass.parse_puzz_link_url is outside the property. 12/12 sensitivity mutants caught; seven root causes found and fixed (see known_findings.json); the atheris target rediscovers them on the original snapshot within 40 s.",
     design_ref="3/C17",
 )
@@ -136,7 +136,7 @@ CHECKS["C19"] = dict(
 
 CHECKS["C11"] = dict(
     technique="Hypothesis-generated small puzzle instances (planted solution, derived then dropped/perturbed clues) decided exhaustively by independent rule checkers and candidate enumerators (reference model), compared with solve_<puzzle> cell by cell",
-    text="All 26 listed modules have an independent spec in /verif/puzzles: a generator of small boards incl. non-square ones with clues on the border and zero clues, a candidate enumerator (all 2^cells markings; all simple cycles of the lattice plus 'no line'; Latin squares by backtracking; connected partitions; 5^k triangle fillings with a geometric rectangle test) and a rule checker transcribed from the published rules (DESIGN.md Appendix A). For each instance the set V of rule-obeying grids is computed; solve_<puzzle> must report a solution iff V is non-empty and every answer-key cell must be the value common to V or None when V disagrees. Instances where a don't-care candidate (rule corner on which published rule sets differ) exists are skipped and counted. Exhaustive per instance, sampled over instances (quick: 200 per puzzle; thorough: 2400).",
+    text="All 26 listed modules have an independent spec in /verif/puzzles: a generator of small boards incl. non-square ones with clues on the border and zero clues, a candidate enumerator (all 2^cells markings; all simple cycles of the lattice plus 'no line'; Latin squares by backtracking; connected partitions; 5^k triangle fillings with a geometric rectangle test) and a rule checker transcribed from the published rules (DESIGN.md Appendix A). For each instance the set V of rule-obeying grids is computed; solve_<puzzle> must report a solution iff V is non-empty and every answer-key cell must be the value common to V or None when V disagrees. Instances where a don't-care candidate (rule corner on which published rule sets differ) exists are skipped and counted. Long thin boards (2x12..15, 1x21..24) with two-digit clues are included for castle_wall and yajilin. Exhaustive per instance, sampled over instances (quick: 200 per puzzle; thorough: 2400).",
     note="Trusted base: the rule transcriptions in /verif/puzzles (three-valued), default backend z3. Board sizes are bounded by the enumerators (<= 12-16 cells, loops on <= 4x4 / 4x5 cells). 26/26 per-puzzle sensitivity mutants caught (four design-list mutants were equivalent and replaced, see tools/mutant_table.py). Found and fixed the aquarium table defect.",
     design_ref="3/C11",
 )
